@@ -72,7 +72,9 @@ def get_system(options: model.Options) -> model.System:
     # step 3: move the system to the desired state
 
     if system.options.projectname is None:
-        name = '/'.join(system.root_names)
+        # root_names is a set: join the root objects in the order they were given instead,
+        # such that the guessed name does not depend on the hash seed.
+        name = '/'.join(dict.fromkeys(o.name for o in system.rootobjects))
         system.msg('warning', f"Guessing '{name}' for project name.", thresh=0)
         system.projectname = name
     else:
